@@ -280,6 +280,8 @@ impl<T> RcBox<T> {
     /// Callers must ensure this `RcBox` is not dead.
     #[inline]
     pub(crate) unsafe fn links(&self) -> &RefCell<Links<T>> {
+        #[cfg(cactusref_verif)]
+        crate::verif::on_links_access(self.strong.get());
         let links = &self.links;
         // SAFETY: because callers have ensured the `RcBox` is not dead, `links`
         // has not yet been deallocated and the `MaybeUninit` is inhabited.
